@@ -15,6 +15,10 @@ package logql_transpiler_v2
 //@     modifies elems(v)
 //@     decreases len(v) - l
 
+//@ func (*FixPeriodPlanner).Process [C08,C12]
+//@   flag implements=(github.com/metrico/qryn/reader/logql/logql_transpiler_v2/shared.RequestProcessor).Process
+//@   modifies fields(ctx)
+
 // The re-bucketing goroutine of FixPeriodPlanner runs without a recover: a
 // run-time panic here ends the process. Every division, allocation and slice
 // expression must be safe for all entries, given a positive step and range.
